@@ -274,7 +274,8 @@ fn main() {
         queries.extend(next.iter().cloned());
         layer = next;
     }
-    let hpool: [(&'static str, &'static str); 5] = [("x-a", "1"), ("X-A", "2"), ("x-b", " v "), ("x-ms-azure-host-authorization", "Azure-HMAC-SHA256 client forged"), ("X-C", "")];
+    // (x-a / x-a-b: one name is a prefix of the other and the next character sorts before ':')
+    let hpool: [(&'static str, &'static str); 6] = [("x-a", "1"), ("X-A", "2"), ("x-b", " v "), ("x-ms-azure-host-authorization", "Azure-HMAC-SHA256 client forged"), ("X-C", ""), ("x-a-b", "3")];
     let mut hsets: Vec<Vec<(&'static str, &'static str)>> = Vec::new();
     for s in vcommon::explore::subsets_upto(hpool.len(), 3) {
         hsets.push(s.iter().map(|&i| hpool[i]).collect());
@@ -385,7 +386,7 @@ fn main() {
     res.cov("exemption_predicate_cases", skip_evals);
     res.cov("exhaustive", true);
     res.cov("rule", format!(
-        "every request over methods {methods:?} x paths {paths:?} x every sequence of <= {maxq} query segments from {} forms (4 keys incl. a prefix pair and a case pair x {{valueless, empty, c, bc, %20, c=d, Yg==}} + the empty segment) x every subset <= 3 of {} client headers (duplicate names via case, padded value, forged authorization header, empty value) x 3 bodies{}; distinct = distinct reference canonical strings", pair_forms.len(), hpool.len(), if thorough { "" } else { " (quick: two-parameter queries only with <= 1 client header)" }));
+        "every request over methods {methods:?} x paths {paths:?} x every sequence of <= {maxq} query segments from {} forms (4 keys incl. a prefix pair and a case pair x {{valueless, empty, c, bc, %20, c=d, Yg==}} + the empty segment) x every subset <= 3 of {} client headers (duplicate names via case, padded value, forged authorization header, empty value, a name that is a prefix of another) x 3 bodies{}; distinct = distinct reference canonical strings", pair_forms.len(), hpool.len(), if thorough { "" } else { " (quick: two-parameter queries only with <= 1 client header)" }));
     res.cov("total_cases", total as u64);
     res.sample(cases[total / 3].json());
     res.sample(cases[total - 1].json());
